@@ -6,6 +6,7 @@
 From Coq Require Import List NArith Bool.
 From Coq.Strings Require Import Byte.
 Import ListNotations.
+From OV Require Import Model.Value Model.XPathFrag Model.Decl Model.Eval Proofs.PipelineC02.
 From OV Require Import Base.Bytes Base.Tree Model.Pipeline Proofs.Pipeline Proofs.PipelineInst Proofs.PipelineCanon.
 
 Section C15.
@@ -66,6 +67,36 @@ Section C15.
     sum = H (canon t).
   Proof. exact (checksum_of_record schema V C c0 eval marshal marshal_err_cont H canon CInv content_stable_per_id CInv_mono eval_cache_transparent eval_id_renaming eval_caches_sound). Qed.
 End C15.
+
+
+(* ---- with the C02 evaluator: no evaluator hypothesis left ---------------------------------------- *)
+(* eval_c02 (Proofs/PipelineC02.v) = Model/Eval.v's ParseNode model run on the document
+   T DocumentNode [] FNone (ctx ++ [record]) at the record, node IDs = the world's IDs by preorder
+   index; eval_cache_transparent / eval_id_renaming are discharged by Proofs/EvalCache.v
+   (caches_invisible_eval, eval_id_renaming, memo_sound_nil).  What remains assumed: the xpath
+   engine returns nodes of the tree it is run on (query_valid); engine, externals and custom
+   functions are deterministic functions (Section variables). *)
+Section C15_C02.
+  Variable query : tree -> bytes -> path -> option (list path).
+  Variable ext : bytes -> option bytes.
+  Variable fsigs : bytes -> option fsig.
+  Variable fcall : tree -> bytes -> path -> list value -> cfres.
+  Variable pcall : tree -> bytes -> path -> cfres.
+  Hypothesis query_valid : forall root x p ps,
+    valid root p -> query root x p = Some ps -> Forall (valid root) ps.
+  Variable marshal : value -> option bytes.
+  Variable marshal_err_cont : bool.
+  Variable H : bytes -> bytes.
+  Variable canon : tree -> bytes.
+  Notation eval_c02 := (eval_c02 query ext fsigs fcall pcall).
+  Notation run_env_c02 := (run_env vdecl value unit eval_c02 marshal marshal_err_cont H canon).
+
+  Theorem run_deterministic_c02 : forall h h' hist s ctx us,
+    Inv0 h -> Inv0 h' ->
+    run_env_c02 (after_history vdecl value unit eval_c02 marshal marshal_err_cont H canon h hist) s ctx us
+    = run_env_c02 h' s ctx us.
+  Proof. exact (run_deterministic_c02 query ext fsigs fcall pcall query_valid marshal marshal_err_cont H canon). Qed.
+End C15_C02.
 
 (* ---- checksum canon (Model/Pipeline.v j2 transcribes idr/marshal2.go J2NodeToInterface) ------- *)
 (* Flat formats (csv, csv2 / fixedlength2 / fixed-length columns, EDI elements): a record is an
